@@ -149,12 +149,13 @@ CHECKS = {
   tech="Coq proof (potential functions) for 4 chunk strategies and replace-properties + capped exploration for replace-arguments",
   ref="4/C09"),
  "C13": dict(
-  text="C13_around and C13_balanced: Coq theorems over the concrete models of the two pair strategies: with a deterministic test, chunk "
+  text="C13_around / C13_balanced (no limit), C13_around_any_unexpired_limit / C13_balanced_any_unexpired_limit (any time limit that no "
+       "clock reading exceeds) and C13_balanced_with_move (the experimental move switched on; finished runs): Coq theorems over the concrete models of the pair strategies: with a deterministic test, chunk "
        "size down to 1, repeat last/always, no limit, a finished run ends at a testcase where every 'delete both neighbours' (around) / "
        "'delete a balanced atom' and 'delete an unbalanced atom with its partner' (balanced, all-reducible splitters) candidate is rejected; "
        "partner is an independent 8-line definition. Tie: trace correspondence (DFS over verdicts on all small bracket arrangements, "
        "mixed-bracket and non-UTF-8 atoms, far deadlines, same strategy object on two files); the fixpoint oracle is also applied to "
-       "runs with the experimental move (concrete model PairsMove.v; the theorems are for the move switched off).",
+       "runs with the experimental move (concrete model PairsMove.v).",
   note=TB + "Reading of 'partner' fixed in DESIGN.md (running balance must not dip below zero). Termination is C09_pairs.",
   tech="Coq proof (last-pass invariants) + trace correspondence",
   ref="4/C13"),
